@@ -201,6 +201,17 @@ def _parse_events(path, res, workload, build_name, extra_args):
     return done
 
 
+def _miri_error_line(path):
+    try:
+        with open(path, "r", errors="replace") as f:
+            for l in f:
+                if l.startswith("error:") and "aborting due to" not in l:
+                    return l.strip()
+    except Exception:
+        pass
+    return None
+
+
 def _stderr_tail(path, n=40):
     try:
         with open(path, "r", errors="replace") as f:
@@ -353,6 +364,10 @@ def _run_chunk(binary, workload, seed, lo, hi, tier, extra, rundir, tag, timeout
         if reason1:
             sig = "hang:no_result_in_isolation_within_generous_limit"
             out["aborts"].append({"case": k, "sig": sig, "stderr": tail1, "rc": None})
+        elif "MIRIFLAGS" in e and rc1 != 0 and _miri_error_line(er1):
+            ml = _miri_error_line(er1)
+            sig = "abort:miri:" + ml[6:].strip().replace(" ", "_")[:100]
+            out["aborts"].append({"case": k, "sig": sig, "stderr": [ml] + tail1[-25:], "rc": rc1})
         elif rc1 == 101 and tail1 and "HARNESS PANIC" in tail1[-1]:
             # the harness itself panicked outside catch_unwind: a defect of the machinery, never a verdict
             out["incidents"].append({"case": k, "what": "harness panic: " + tail1[-1][:300], "stderr": tail1})
@@ -546,7 +561,8 @@ MIRI_CMD = ["cargo", "+nightly", "miri", "run", "-q", "--manifest-path", os.path
 
 
 def miri_env(extra_flags=""):
-    return {"MIRIFLAGS": ("-Zmiri-disable-isolation " + extra_flags).strip(),
+    # leaks are not what these runs look for (the harness interns strings on purpose)
+    return {"MIRIFLAGS": ("-Zmiri-disable-isolation -Zmiri-ignore-leaks " + extra_flags).strip(),
             "CARGO_TARGET_DIR": os.path.join(BUILD, "miri")}
 
 
